@@ -140,64 +140,77 @@ def bytesCmp : Bytes → Bytes → Ordering
   | _ :: _, [] => .gt
   | a :: as, b :: bs => if a < b then .lt else if a > b then .gt else bytesCmp as bs
 
-/-- `op_eq.cpp`. Tables and tuples compare by *address* of the payload (`a1.collection() ==
-a2.collection()`): two distinct values are never equal, so the model returns `false` for them
-unless the caller knows they are the same cell (`same`). -/
+/-- A comparison result as a value; `unmodelled` passes through. -/
+def boolRes : Res Bool → Res Val
+  | .ok b => .ok (.bool b)
+  | .err c a => .err c a
+  | .haz h => .haz h
+  | .unmodelled => .unmodelled
+
+/-- Core of `op_eq.cpp` on two non-null operands. Tables and tuples compare by *address* of the
+payload (`a1.collection() == a2.collection()`): two distinct values are never equal, so the model
+returns `false` for them unless the caller knows they are the same cell (`same`). -/
+def eqCore (same : Bool) (a1 a2 : Val) : Res Bool :=
+  let t1 := a1.type
+  let t2 := a2.type
+  if t1.level > 0 then .ok (t2.level > 0 && same)
+  else if t2.level > 0 then .ok false
+  else match a1, a2 with
+  | .bool x, .bool y => .ok (x == y)
+  | .int x, .num y => .ok (feq (bits x.toFloat) y)
+  | .int x, .int y => .ok (x == y)
+  | .num x, .num y => .ok (feq x y)
+  | .num x, .int y => .ok (feq x (bits y.toFloat))
+  | .str x, .str y => .ok (x == y)
+  | .raw x, .raw y => .ok (x == y)
+  | .obj _ i, .obj _ j => .ok (i == j)
+  | .tup _ _, .tup _ _ => .ok same
+  | .imag _ _, _ | _, .imag _ _ => .unmodelled
+  | _, _ => .ok false
+
+/-- `op_eq.cpp`: null when either operand is null. -/
 def opEq (same : Bool) (a1 a2 : Val) : Res Val :=
-  if a1.isNull || a2.isNull then .ok (.null Ty.bool) else
+  if a1.isNull || a2.isNull then .ok (.null Ty.bool) else boolRes (eqCore same a1 a2)
+
+/-- Core of `op_ne.cpp` (not literally `!eq`: transcribed cell by cell). -/
+def neCore (same : Bool) (a1 a2 : Val) : Res Bool :=
   let t1 := a1.type
   let t2 := a2.type
-  if t1.level > 0 then .ok (.bool (t2.level > 0 && same))
-  else if t2.level > 0 then .ok (.bool false)
+  if t1.level > 0 then .ok (!(t2.level > 0 && same))
+  else if t2.level > 0 then .ok true
   else match a1, a2 with
-  | .bool x, .bool y => .ok (.bool (x == y))
-  | .int x, .num y => .ok (.bool (feq (bits x.toFloat) y))
-  | .int x, .int y => .ok (.bool (x == y))
-  | .num x, .num y => .ok (.bool (feq x y))
-  | .num x, .int y => .ok (.bool (feq x (bits y.toFloat)))
-  | .str x, .str y => .ok (.bool (x == y))
-  | .raw x, .raw y => .ok (.bool (x == y))
-  | .obj _ i, .obj _ j => .ok (.bool (i == j))
-  | .tup _ _, .tup _ _ => .ok (.bool same)
+  | .bool x, .bool y => .ok (x != y)
+  | .int x, .num y => .ok (!feq (bits x.toFloat) y)
+  | .int x, .int y => .ok (x != y)
+  | .num x, .num y => .ok (!feq x y)
+  | .num x, .int y => .ok (!feq x (bits y.toFloat))
+  | .str x, .str y => .ok (x != y)
+  | .raw x, .raw y => .ok (x != y)
+  | .obj _ i, .obj _ j => .ok (i != j)
+  | .tup _ _, .tup _ _ => .ok (!same)
   | .imag _ _, _ | _, .imag _ _ => .unmodelled
-  | _, _ => .ok (.bool false)
+  | _, _ => .ok true
 
-/-- `op_ne.cpp` (not literally `!eq`: transcribed cell by cell). -/
 def opNe (same : Bool) (a1 a2 : Val) : Res Val :=
-  if a1.isNull || a2.isNull then .ok (.null Ty.bool) else
-  let t1 := a1.type
-  let t2 := a2.type
-  if t1.level > 0 then .ok (.bool (!(t2.level > 0 && same)))
-  else if t2.level > 0 then .ok (.bool true)
-  else match a1, a2 with
-  | .bool x, .bool y => .ok (.bool (x != y))
-  | .int x, .num y => .ok (.bool (!feq (bits x.toFloat) y))
-  | .int x, .int y => .ok (.bool (x != y))
-  | .num x, .num y => .ok (.bool (!feq x y))
-  | .num x, .int y => .ok (.bool (!feq x (bits y.toFloat)))
-  | .str x, .str y => .ok (.bool (x != y))
-  | .raw x, .raw y => .ok (.bool (x != y))
-  | .obj _ i, .obj _ j => .ok (.bool (i != j))
-  | .tup _ _, .tup _ _ => .ok (.bool (!same))
-  | .imag _ _, _ | _, .imag _ _ => .unmodelled
-  | _, _ => .ok (.bool true)
+  if a1.isNull || a2.isNull then .ok (.null Ty.bool) else boolRes (neCore same a1 a2)
 
-/-- `op_lt/le/gt/ge.cpp`: one switch on `a1.type().major()`; the second operand is read through a
-typed accessor, which throws when its type does not fit. -/
-def ordered (ci : Int64 → Int64 → Bool) (cf : F64 → F64 → Bool) (cs : Ordering → Bool)
-    (a1 a2 : Val) : Res Val :=
-  if a1.isNull || a2.isNull then .ok (.null Ty.bool) else
+/-- Core of `op_lt/le/gt/ge.cpp`: one switch on `a1.type().major()`; the second operand is read
+through a typed accessor, which throws when its type does not fit. -/
+def ordCore (ci : Int64 → Int64 → Bool) (cf : F64 → F64 → Bool) (cs : Ordering → Bool) (a1 a2 : Val) : Res Bool :=
   match a1.type.major with
   | .int =>
     if a2.type.major == .num then do
-      let x ← a1.asInt; let y ← a2.asNum; pure (.bool (cf (bits x.toFloat) y))
-    else do let x ← a1.asInt; let y ← a2.asInt; pure (.bool (ci x y))
+      let x ← a1.asInt; let y ← a2.asNum; pure (cf (bits x.toFloat) y)
+    else do let x ← a1.asInt; let y ← a2.asInt; pure (ci x y)
   | .num =>
     if a2.type.major == .int then do
-      let x ← a1.asNum; let y ← a2.asInt; pure (.bool (cf x (bits y.toFloat)))
-    else do let x ← a1.asNum; let y ← a2.asNum; pure (.bool (cf x y))
-  | .str => do let x ← a1.asStr; let y ← a2.asStr; pure (.bool (cs (bytesCmp x y)))
-  | _ => .ok (.bool false)
+      let x ← a1.asNum; let y ← a2.asInt; pure (cf x (bits y.toFloat))
+    else do let x ← a1.asNum; let y ← a2.asNum; pure (cf x y)
+  | .str => do let x ← a1.asStr; let y ← a2.asStr; pure (cs (bytesCmp x y))
+  | _ => .ok false
+
+def ordered (ci : Int64 → Int64 → Bool) (cf : F64 → F64 → Bool) (cs : Ordering → Bool) (a1 a2 : Val) : Res Val :=
+  if a1.isNull || a2.isNull then .ok (.null Ty.bool) else boolRes (ordCore ci cf cs a1 a2)
 
 def opLt := ordered (· < ·) flt (· == .lt)
 def opLe := ordered (· ≤ ·) fle (· != .gt)
